@@ -4,6 +4,7 @@ import (
 	"bytes"
 	"context"
 	"io"
+	"sync"
 
 	"github.com/aptpod/iscp-go/internal/vf"
 	"github.com/aptpod/iscp-go/transport"
@@ -106,5 +107,79 @@ func zzC13cPerMessage() {
 	}
 	vf.Assert("no-dictionary-kept", a.writeWindowBuf.Len() == 0 && b.readWindowBuf.Len() == 0)
 	vf.Assert("counters-agree", a.TxBytesCounterValue() == b.RxBytesCounterValue())
+	vf.Reach("end")
+}
+
+// zzGateLink is zzLink whose message writer is exclusive, as on the real backends (a second Writer
+// call blocks until the previous message has been closed), and which holds the very first Writer
+// caller at a gate until the harness releases it — so that a later writer can overtake it at the
+// connection, whatever each of them did before asking for the writer.
+type zzGateLink struct {
+	zzLink
+	mu      sync.Mutex
+	cmu     sync.Mutex
+	calls   int
+	release chan struct{}
+}
+
+type zzGateWriter struct {
+	zzMsgWriter
+	l *zzGateLink
+}
+
+func (w *zzGateWriter) Close() error {
+	err := w.zzMsgWriter.Close()
+	w.l.mu.Unlock()
+	return err
+}
+
+func (l *zzGateLink) Writer(context.Context, MessageType) (io.WriteCloser, error) {
+	l.cmu.Lock()
+	l.calls++
+	first := l.calls == 1
+	l.cmu.Unlock()
+	if first {
+		<-l.release
+	}
+	l.mu.Lock()
+	return &zzGateWriter{zzMsgWriter: zzMsgWriter{dst: l.out}, l: l}, nil
+}
+
+// C13.d: concurrent writers in context-takeover mode: the frames reach the wire in the order in which
+// they were compressed, also when a later writer overtakes an earlier one at the connection's
+// exclusive message writer; the peer decodes every message and the windows stay identical.
+func zzC13dConcurrentWriters() {
+	cc := compress.Config{Enable: true, Level: 1, DisableContextTakeover: false, WindowBits: 2}
+	var ab, ba [][]byte
+	np := NegotiationParams{}
+	lv, wb := cc.Level, cc.WindowBits
+	np.Compress = cc.Type()
+	np.CompressLevel = &lv
+	np.CompressWindowBits = &wb
+	link := &zzGateLink{zzLink: zzLink{out: &ab, in: &ba}, release: make(chan struct{})}
+	a := New(Config{Conn: link, CompressConfig: cc, NegotiationParams: np})
+	b := New(Config{Conn: &zzLink{out: &ba, in: &ab}, CompressConfig: cc, NegotiationParams: np})
+	m1, m2 := vf.BytesN("m1", 3), vf.BytesN("m2", 3)
+	vf.Assume(m1[2] != m2[2]) // so that the two possible window contents differ
+	var e1, e2 error
+	d1, d2 := false, false
+	go func() { e1 = a.Write(m1); d1 = true }()
+	vf.Settle() // writer 1 is parked at the connection's gate
+	go func() { e2 = a.Write(m2); d2 = true }()
+	vf.Settle() // writer 2 overtakes it
+	vf.Assert("second-writer-not-held-up", d2 && e2 == nil && !d1)
+	close(link.release)
+	vf.Settle()
+	vf.Assert("both-writes-return", d1 && d2 && e1 == nil && e2 == nil)
+	vf.Assert("two-frames-on-the-wire", len(ab) == 2)
+	g1, r1 := b.Read()
+	g2, r2 := b.Read()
+	// (checked first: with the real DEFLATE a window mismatch only breaks decoding when a
+	// back-reference reaches into the differing part, the mismatch itself is always observable)
+	vf.Assert("windows-identical", zzBEq(a.writeWindowBuf.Bytes(), b.readWindowBuf.Bytes()))
+	vf.Assert("peer-decodes-both", r1 == nil && r2 == nil)
+	if r1 == nil && r2 == nil {
+		vf.Assert("wire-order-is-compression-order", zzBEq(g1, m2) && zzBEq(g2, m1))
+	}
 	vf.Reach("end")
 }
